@@ -113,11 +113,22 @@ WithdrawEv(ev, t) ==
           \o ObsChecks(WithdrawNext(st, u, amt, out), ev.obs)
      ELSE Unchanged(ev, t)
 
+\* the Simulation query is an observation point of C02 in its own right: whatever happens to the swap itself, a quote
+\* given for a live constant-product pool follows the formula on the reserves the pool reports
+SimFormula(ev) ==
+  LET dir == ev.args.dir  sim == ev.pre.sim
+      live == Zero \prec st.S /\ Zero \prec R(st, 1) /\ Zero \prec R(st, 2)
+  IN IF st.ptype = "cp" /\ live /\ sim.res = "ok" /\ Zero \prec ev.args.offer
+     THEN << <<"C02.simulation.follows-the-formula-on-the-reported-reserves",
+                AllOk(CpRules(R(st, dir), R(st, Oth(dir)), ev.args.offer, st.fees, sim))>> >>
+     ELSE <<>>
+
 SwapEv(ev, t) ==
   LET dir == ev.args.dir  offer == ev.args.offer  u == ev.actor  sim == ev.pre.sim
       ms == ev.args.ms  bp == ev.args.bp
       live == Zero \prec st.S /\ Zero \prec R(st, 1) /\ Zero \prec R(st, 2)
-  IN IF ev.res = "ok"
+  IN SimFormula(ev) \o
+     IF ev.res = "ok"
      THEN LET o == ev.out  g == Gross(o) IN
           SwapChecks(st, dir, offer, o)
           \o << <<"C14.simulation.ok", sim.res = "ok">>,
